@@ -617,7 +617,10 @@ class Ref:
                 for i in range(n):
                     newcells[i].append(self.ev(e, rv, i, win))
             if k == "derive":
-                return RelVal(rv.cols + newcols, [Row(r.present, r.cells + newcells[i]) for i, r in enumerate(rv.rows)], rv.order)
+                # a derived column that re-uses the name of existing columns shadows them: they stay in the frame, without a name
+                shadow = {c.name for c in newcols if c.name}
+                old = [Col(None, c.rel) if c.name in shadow else c for c in rv.cols]
+                return RelVal(old + newcols, [Row(r.present, r.cells + newcells[i]) for i, r in enumerate(rv.rows)], rv.order)
             return RelVal(newcols, [Row(r.present, newcells[i]) for i, r in enumerate(rv.rows)], rv.order)
         if k == "selectnot":
             drop = {self.resolve(rv, nm) for nm in t.names}
